@@ -84,6 +84,55 @@ EXC_CLASSES = {
 }
 
 
+class Bag:
+    """a sized container whose iterator is a generator"""
+
+    def __init__(self, items):
+        self._items = list(items)
+
+    def __len__(self):
+        return len(self._items)
+
+    def __iter__(self):
+        yield from self._items
+
+
+class NoLen:
+    """an iterable without a length"""
+
+    def __init__(self, items):
+        self._items = list(items)
+
+    def __iter__(self):
+        return (x for x in self._items)
+
+
+class OldSeq:
+    """the old sequence protocol: __getitem__ and __len__ only"""
+
+    def __init__(self, items):
+        self._items = list(items)
+
+    def __len__(self):
+        return len(self._items)
+
+    def __getitem__(self, n):
+        return self._items[n]
+
+
+def _userlist(items):
+    import collections
+    return collections.UserList(items)
+
+
+def _deque(items):
+    import collections
+    return collections.deque(items)
+
+
+CARRIERS = {"tuple": tuple, "userlist": _userlist, "bag": Bag, "nolen": NoLen, "oldseq": OldSeq, "deque": _deque}
+
+
 def make_exc(c):
     cls = EXC_CLASSES[c]
     if cls is Custom2:
